@@ -52,6 +52,7 @@ func HarnessC11() {
 	l1 := &c11Loader{LocalFilesystemLoader: &LocalFilesystemLoader{}, files: map[string]string{
 		"/t/sub/a.tpl": mA + "{{ v }}{% include \"b.tpl\" %}{% include \"../base.tpl\" %}",
 		"/t/sub/b.tpl": mB + "[{{ v }}{{ w }}]",
+		"/t/sub/p.tpl": "({{ v }}{{ w }}{{ p }}{{ q }}{{ i }}{{ forloop.Counter }})",
 		"/t/base.tpl":  mBase + "{% block k %}K{% endblock %}",
 		"/t/lib.tpl":   "{% macro m(p) export %}" + mLib + "{{ p }}{% endmacro %}",
 		"/t/raw.txt":   mRaw + "{{ not parsed }}",
@@ -63,7 +64,7 @@ func HarnessC11() {
 		"/u/only2.tpl": "2" + mX2,
 	}}
 	set := NewSet("verif", l1, l2)
-	form := verifChoice(14)
+	form := verifChoice(15)
 	verifObserve("form", form)
 	var src, want string
 	var fetched []string // names expected in the union of both loaders' Get logs
@@ -99,6 +100,11 @@ func HarnessC11() {
 		src = "{% include \"sub/b.tpl\" with w=\"Q\" only %}"
 		want = mB + "[Q]"
 		fetched = []string{"/t/sub/b.tpl"}
+	case 14: // only: names bound by set / with / for in the includer are not handed down either
+		src = "{% set p = v %}{% with q=v %}{% for i in l %}{% include \"sub/p.tpl\" with w=\"Q\" only %}{% include \"sub/p.tpl\" with w=\"R\" %}{% endfor %}{% endwith %}"
+		ctx["l"] = []string{"1"}
+		want = "(Q)(" + V + "R" + V + V + "11)"
+		fetched = []string{"/t/sub/p.tpl"}
 	case 5: // missing name is an error
 		src = "{% include \"nope.tpl\" %}"
 		wantErr = true
